@@ -107,6 +107,13 @@ func (l c10Layout) String() string {
 // c10Check builds the layout with the real flush path in a fresh in-memory directory and compares
 // every query with the brute-force model, on the live handles and on handles rebuilt by recover().
 func c10Check(c *Ctx, l c10Layout, keys []string, tss []uint64, fpFamilies []string) {
+	if err := guard("c10", func() error { c10CheckRaw(c, l, keys, tss, fpFamilies); return nil }); err != nil {
+		oe := err.(*OracleErr)
+		c.Violation(oe.Sig, fmt.Sprintf("%v: %s", l, oe.Detail), nil, l)
+	}
+}
+
+func c10CheckRaw(c *Ctx, l c10Layout, keys []string, tss []uint64, fpFamilies []string) {
 	vos.SetFS(vos.NewFS())
 	vos.MkdirAll("/d", 0o755)
 	lm := originium.NewVerifLM("/d", 100, 10, l.Block, false)
